@@ -181,12 +181,13 @@ CLAIMED.update({
  'C12': dict(engine='symnp + cy2smt',
     technique='statement blocks of _prinz_mle_py extracted from the current source (AST) and the loop bodies of _mle_prinz_dense (typed Cython tree) executed symbolically from an arbitrary invariant state; RelErr float model (QF_NRA) and bit-precise FP model for the final assertions; z3',
     text='From an ARBITRARY state satisfying the sweep invariant, z3 proves that the diagonal and the pair update of the current source each '
-         'establish their Prinz stationarity equation, keep X symmetric with X_rs its row sums, and that `assert c <= 0` cannot fire (so every '
-         'fixed point satisfies the self-consistency equations); that the compiled and the Python update blocks compute the same state; that '
+         'establish their Prinz stationarity equation, keep X symmetric with X_rs its row sums, and that `assert c <= 0` cannot fire - neither from the exact invariant nor from a '
+         'state whose incrementally updated row sums have drifted by rounding (relative 2^-30; this job found and now guards the repaired defect '
+         '76ce601) - (so every fixed point satisfies the self-consistency equations); that the compiled and the Python update blocks compute the same state; that '
          'the final normalisation assertions cannot fire under rounding (RelErr model, u=2^-53); and that a run reaching max_iter warns instead '
          'of raising, in both implementations.',
     note='Trusted: both engines, z3, sqrt/log contracts. NOT decided (cannot be encoded): convergence of the iteration and the global '
-         'maximum-likelihood claim at the limit; the differing stopping metrics (log vs log10); sparse inputs.',
+         'maximum-likelihood claim at the limit; the differing stopping metrics (log vs log10). Sparse containers (incl. COO with repeated coordinates) are covered for one bounded sweep of the public builder.',
     ref='DESIGN.md section 8 C12'),
 })
 CLAIMED.update({
